@@ -900,6 +900,18 @@ class Engine:
             assert len(advance['update']) == 0, \
                 f"the process at path {path} is an unapplied update"
 
+    def _next_time(self, full_step: float) -> float:
+        '''The global time after advancing by ``full_step``.
+
+        ``full_step`` is a difference of two times on the
+        ``global_time_precision`` grid, so the sum may miss the grid by
+        a float error (0.2 + (0.9 - 0.2) = 0.9000000000000001).
+        '''
+        next_time = self.global_time + full_step
+        if self.global_time_precision is not None:
+            next_time = round(next_time, self.global_time_precision)
+        return next_time
+
     def _remove_deleted_processes(self) -> None:
         '''Remove deleted processes from the front.'''
         self.front = {
@@ -1019,15 +1031,10 @@ class Engine:
                     self.front[quiet]['time'] = self.global_time
                     self.front[quiet]['update'] = {}
 
-            elif self.global_time + full_step <= end_time:
+            elif self._next_time(full_step) <= end_time:
                 # at least one process ran within the interval
                 # increase the time, apply updates, and continue
-                self.global_time += full_step
-                if self.global_time_precision is not None:
-                    # full_step is a difference of grid times: the sum
-                    # may be off the grid by a float error
-                    self.global_time = round(
-                        self.global_time, self.global_time_precision)
+                self.global_time = self._next_time(full_step)
 
                 # advance all quiet processes to current time
                 for quiet in quiet_paths:
